@@ -43,6 +43,7 @@ import (
 type Behaviour struct {
 	Kind    string        `json:"kind"` // ok | reset0 | close0 | garbage | hdr-reset | hdr-close | body-reset | body-close | body-stall | shortcl | truncchunk | stall0
 	Status  int           `json:"status,omitempty"`
+	Interim int           `json:"interim,omitempty"` // an interim response with this 1xx status is sent before anything else the kind does
 	Headers [][2]string   `json:"headers,omitempty"`
 	Body    []byte        `json:"-"`
 	BodyHex string        `json:"body_hex,omitempty"`
@@ -354,6 +355,10 @@ func (b *Backend) respond(c net.Conn, bh Behaviour, s *Seen) bool {
 	k := bh.K
 	if k > len(body) {
 		k = len(body)
+	}
+	if bh.Interim > 0 { // an interim (1xx) response first: 103 Early Hints, 102 Processing
+		w([]byte(fmt.Sprintf("HTTP/1.1 %03d %s\r\nLink: </style.css>; rel=preload\r\nX-Backend-Interim: %s\r\n\r\n", bh.Interim, http.StatusText(bh.Interim), b.Name)))
+		time.Sleep(15 * time.Millisecond)
 	}
 	switch bh.Kind {
 	case "ok", "":
@@ -866,6 +871,9 @@ type Resp struct {
 	Complete bool                `json:"complete"` // framing satisfied (Content-Length reached / chunked terminator / close-delimited EOF)
 	Raw      []byte              `json:"-"`
 	Ms       int64               `json:"ms"`
+	// Interims: for every interim (1xx) response that came before the final one, which backend said it (the scripted
+	// backends put their name into X-Backend-Interim) or "?" when it carries no such header
+	Interims []string `json:"interims,omitempty"`
 }
 
 // Do sends raw request bytes on a fresh connection and reads the reply until EOF or timeout.
@@ -905,6 +913,21 @@ func Do(addr string, raw []byte, timeout time.Duration) *Resp {
 // ParseResp is a strict little HTTP/1.1 response reader over the raw bytes.
 func ParseResp(r *Resp, timedOut bool) {
 	raw := r.Raw
+	// interim responses: a status line 1xx (other than 101) and its header block, then the next response
+	for {
+		j := bytes.Index(raw, []byte("\r\n\r\n"))
+		if j < 0 || len(raw) < 12 || !bytes.HasPrefix(raw, []byte("HTTP/1.")) || raw[8] != ' ' || raw[9] != '1' || string(raw[9:12]) == "101" {
+			break
+		}
+		who := "?"
+		for _, l := range strings.Split(string(raw[:j]), "\r\n")[1:] {
+			if kv := strings.SplitN(l, ":", 2); len(kv) == 2 && strings.EqualFold(strings.TrimSpace(kv[0]), "X-Backend-Interim") {
+				who = strings.TrimSpace(kv[1])
+			}
+		}
+		r.Interims = append(r.Interims, who)
+		raw = raw[j+4:]
+	}
 	i := bytes.Index(raw, []byte("\r\n\r\n"))
 	if i < 0 {
 		if timedOut {
